@@ -140,7 +140,8 @@ def run(chk):
             outlen = r.choice([full, full, full, r.range(1, len(inp) + 2), len(inp)])
             pres = 12 | r.choice([0, 16, 16, 1, 1, 3, 17])
             cursor = r.range(0, len(inp) - 1) if pres & 16 else -2
-            lines.append(trans.case_line("T" if direction == "F" else "T", mode, inp, full if direction == "B" else outlen,
+            # some forward calls through lou_translatePrehyphenated with hyphen arrays (Q): the same arrays must come back
+            lines.append(trans.case_line("Q" if direction == "F" and r.chance(0.15) else "T", mode, inp, full if direction == "B" else outlen,
                                          cursor=cursor, presence=pres, typeform=safety.gen_typeform(r, len(inp)) if pres & 1 else None))
             meta.append((direction, inp, mode, outlen, pres, cursor))
         if alphabet is None and os.path.basename(tl) in ("en-us-g2.ctb", "en-ueb-g2.ctb", "de-g2.ctb", "fr-bfu-g2.ctb", "cy-cy-g2.ctb", "hu-hu-g2.ctb"):
